@@ -102,9 +102,9 @@ def main():
     lock = threading.Lock()
 
     def worker(i):
-        scratch = os.path.join(tmp, "roto-par-%d" % i)
-        cache = os.path.join(VERIF, ".cache", "par-%d" % i)
-        evdir = os.path.join(tmp, "roto-par-ev-%d" % i)
+        scratch = os.path.join(tmp, "roto-par-%d-%d" % (os.getpid(), i))      # unique per run: two regressions may run at once
+        cache = os.path.join(VERIF, ".cache", "par-%d-%d" % (os.getpid(), i))
+        evdir = os.path.join(tmp, "roto-par-ev-%d-%d" % (os.getpid(), i))
         os.makedirs(scratch, exist_ok=True)
         try:
             while True:
